@@ -197,7 +197,7 @@ func (vc *VC) frameObligations(fn *ssa.Function, ct *Contract, te *TEnv, final *
 		case *ECall:
 			if x.Fn == "all" {
 				tv := teOld.term(x.Args[0])
-				if p, ok := types.Unalias(tv.gt).Underlying().(*types.Pointer); ok && tv.gt != nil {
+				if p, ok := underNil(tv.gt).(*types.Pointer); ok && tv.gt != nil {
 					if si := reg.structInfoOf(p.Elem()); si != nil {
 						for i := range si.fields {
 							dess = append(dess, des{heapKeyField(si, i), tv.t})
@@ -210,7 +210,7 @@ func (vc *VC) frameObligations(fn *ssa.Function, ct *Contract, te *TEnv, final *
 			}
 			if x.Fn == "mapof" {
 				tv := teOld.term(x.Args[0])
-				if mt, ok := types.Unalias(tv.gt).Underlying().(*types.Map); ok && tv.gt != nil {
+				if mt, ok := underNil(tv.gt).(*types.Map); ok && tv.gt != nil {
 					fr := &frame{vc: vc}
 					pk, _, vk, _ := fr.mapHeaps(mt)
 					dess = append(dess, des{pk, tv.t}, des{vk, tv.t})
@@ -219,7 +219,7 @@ func (vc *VC) frameObligations(fn *ssa.Function, ct *Contract, te *TEnv, final *
 			}
 			if x.Fn == "elems" {
 				tv := teOld.term(x.Args[0])
-				if sl, ok := types.Unalias(tv.gt).Underlying().(*types.Slice); ok && tv.gt != nil {
+				if sl, ok := underNil(tv.gt).(*types.Slice); ok && tv.gt != nil {
 					dess = append(dess, des{heapKeyElem(reg.sortOf(sl.Elem())), "(sref " + tv.t + ")"})
 					continue
 				}
